@@ -57,7 +57,13 @@ func stringUnderlying(str string, t reflect.Type) (reflect.Value, error) {
 			if parseErr != nil {
 				return reflect.Value{}, fmt.Errorf("parse error of item %d %q: %s", idx, strVal, parseErr)
 			}
-			castSlice = reflect.Append(castSlice, castVal.Elem())
+			switch t.Elem().Kind() {
+			case reflect.Slice, reflect.Map:
+				// collections come back as values, not pointers
+				castSlice = reflect.Append(castSlice, castVal)
+			default:
+				castSlice = reflect.Append(castSlice, castVal.Elem())
+			}
 		}
 		return castSlice, nil
 
